@@ -1618,11 +1618,11 @@ func scenPromoteIdle(e *engineA) error {
 		if e.rng.Intn(3) != 0 {
 			// the change happens under write load (the leader tells its
 			// replications about new entries all the time)
-			e.startClients(6, map[string]int{"update": 1})
-			if e.rng.Intn(2) == 0 {
+			e.startClients(8, map[string]int{"update": 1})
+			if e.rng.Intn(4) != 0 {
 				// and its replications are slow to pick up what they are told
 				// (several messages of the leader pile up for them)
-				e.pc.setSlow(cur.dir, "repl.beforeRead", e.hb()/time.Duration(4+e.rng.Intn(6)))
+				e.pc.setSlow(cur.dir, "repl.beforeRead", e.hb()/time.Duration(3+e.rng.Intn(5)))
 			}
 			e.sleepHB(1, 2)
 		}
